@@ -10,7 +10,7 @@ package main
 //	    arguments must give the same leakage trace (`ctir.trace`), whenever the declassified
 //	    verdicts coincide.  A difference is the two-secret replay of a violation: `impl!=spec` with
 //	    both requests.  The entry points DerivePublic / GenerateKey / SignHashed and
-//	    SM2ScalarElement.SetBytes are among them since the repairs 9cead3d, 233fd1f, 9a85a34 (before,
+//	    SM2ScalarElement.SetBytes are among them since the repairs 9cead3d, 233fd1f, 9a85a34, 3579533 (before,
 //	    this runner replayed their violations: early-exit comparison, big.Int.ModInverse of Z).
 import (
 	"fmt"
@@ -669,24 +669,26 @@ func (h *c08) tracePairs(nSmall, nMed, nBig int) {
 	d1, d2 := h.validScalar(0), h.validScalar(4)
 	h.pair("sm2.DerivePublic", "keys", []string{vBytes(d1)}, []string{vBytes(d2)}, "")
 	h.pair("sm2.GenerateKey", "keys", []string{tape(d1), "1"}, []string{tape(d2), "1"}, "")
-	// SignHashed: the soundness theorem assumes that the math/big values of the two runs have the same
-	// shape (OracleRel; math/big is outside the enumerated operations).  The byte lengths of r, s and r+k
-	// are such shapes (`len(rkBytes) == 32 && …`, ensure32Bytes): pairs on which they differ are counted
-	// as an observation, not compared.
+	// SignHashed: since 3579533 r+k and 1+d are encoded on fixed-width buffers (big.Int.FillBytes), so no
+	// secret-dependent big.Int length remains.  What is left of the math/big shape assumption of the
+	// soundness theorem (OracleRel) is ensure32Bytes on the OUTPUTS r and s: `i.Bytes()` and
+	// `copy(buf[32-len(bytes):], bytes)` make the byte lengths of r and s slice bounds.  r and s are the
+	// public signature; the IR labels every math/big result secret, so the theorem covers pairs of runs
+	// whose r and s have the same byte length, and so does this comparison: pairs where they differ
+	// (a leading zero byte in r or s, probability 1/128) are counted, not compared.
 	e := c.rng.Bytes(32)
 	shapes := func(K []byte) string {
 		r, s2, err := sm2.SignHashed(&scriptReader{items: dataScript(K, K, K, K)}, d1, e)
 		if err != nil {
 			return "err"
 		}
-		rk := new(big.Int).Add(new(big.Int).SetBytes(r), new(big.Int).SetBytes(K))
-		return fmt.Sprintf("%d/%d/%d", len(new(big.Int).SetBytes(r).Bytes()), len(new(big.Int).SetBytes(s2).Bytes()), len(rk.Bytes()))
+		return fmt.Sprintf("%d/%d", len(new(big.Int).SetBytes(r).Bytes()), len(new(big.Int).SetBytes(s2).Bytes()))
 	}
 	done := 0
 	for i := 0; i < 40 && done < 2; i++ {
 		K1, K2 := h.validScalar(5+i), h.validScalar(2+i)
 		if shapes(K1) != shapes(K2) {
-			c.res.Classes["trace/sm2.SignHashed/bigint-shapes-differ"]++
+			c.res.Classes["trace/sm2.SignHashed/output-lengths-differ"]++
 			continue
 		}
 		if h.pair("sm2.SignHashed", "nonces/"+shapes(K1), []string{tape(K1), "1", vBytes(d1), vBytes(e)}, []string{tape(K2), "1", vBytes(d1), vBytes(e)}, "") {
